@@ -10,7 +10,7 @@ CONSTANTS
   RecTtls <- MC_RecTtls
   Steps <- MCH_Steps
   MaxMono = 12
-  MaxCalls = 3
+  MaxCalls = 2
   ClkStarts <- MCH_Starts
   ArgSet <- MCH_Args
   RRV <- MCH_RRV
